@@ -460,6 +460,18 @@ def oracle(case, real):
                     src = kind if kind is not None else "per-sample"
                     fails.append(Failure(f"getall_{name}:{src}-input", f"getall_{name}(stack, 'x') differs from the per-sample accessors "
                                          f"(bulk source: {src}) for {desc}", case, flat, real[name]))
+    # bulk accessors of a sized stack that has a balanced concat below another layer (known finding: parts in a row vs round-robin)
+    if size is not None and has_balanced(spec):
+        kind = bulk_kind(spec)
+        if kind is not None:
+            if real["getall"] != [kind, flat]:
+                fails.append(Failure(KNOWN_BALANCED_KEY, f"getall_x() of a stack over a balanced concat differs from the per-sample "
+                                     f"accessors (parts in a row instead of round-robin) for {desc}", case, [kind, flat], real["getall"]))
+            for name in ("as_list", "as_numpy", "as_tensor"):
+                if real[name] != flat:
+                    fails.append(Failure(KNOWN_BALANCED_KEY, f"getall_{name}(stack, 'x') of a stack over a balanced concat differs from "
+                                         f"the per-sample accessors for {desc}", case, flat, real[name]))
+                    break
     # introspection over linear chains
     ch = linear_chain(spec)
     if ch is not None:
@@ -478,31 +490,24 @@ def oracle(case, real):
 
 
 def _claims_getall(spec):
-    """hasattr(stack, 'getall_x') as the stack answers it (subset and concat layers answer every getall_* name)"""
+    """hasattr(stack, 'getall_x'): a subset claims the accessor iff the wrapped dataset does, a concat iff all parts do"""
     t = spec["t"]
     if t == "base":
         return spec["kind"] != "absent"
-    if t == "wrap":
-        return _claims_getall(spec["d"])
-    return True
+    if t == "concat":
+        return all(_claims_getall(p) for p in spec["ds"])
+    return _claims_getall(spec["d"])
 
 
-def observations(case, real):
-    """out-of-claim behaviour worth recording (never a violation)"""
-    spec = case["ds"]
-    out = []
-    if real.get("build") != "ok":
-        return out
-    try:
-        if has_balanced(spec) and not (spec["t"] == "concat" and spec["bal"]) and isinstance(real.get("getall"), list):
-            per = [spec_item(spec, k) for k in range(len(real["getall"][1]))] if spec_size(spec) is not None else None
-            if per is not None and per != real["getall"][1]:
-                out.append(f"bulk accessor of a stack over a balanced concat lists the parts in a row, per-sample access round-robins: {describe(spec)}")
-    except (_OutOfClaim, IndexError):
-        pass
-    if _claims_getall(spec) and bulk_kind(spec) is None and real.get("as_list") == "AttributeError":
-        out.append(f"getall() takes the fast path (subset/concat answer hasattr for every getall_* name) although the base has no bulk accessor: {describe(spec)}")
-    return out
+KNOWN_BALANCED_KEY = "indexmaps:getall-over-balanced-concat"
+
+
+def known_witness():
+    """KDSubset(KDConcatDataset([A(2), B(2)], balanced_sampling=True), indices=[0, 1, 2, 3])"""
+    spec = {"t": "subset", "uid": 101, "ty": TY_KDSUBSET, "cont": "list", "idx": [0, 1, 2, 3],
+            "d": {"t": "concat", "bal": True, "ds": [{"t": "base", "id": 1, "n": 2, "kind": "list"},
+                                                     {"t": "base", "id": 2, "n": 2, "kind": "list"}]}}
+    return {"op": "im.run", "ds": spec, "ks": [0, 1, 2, 3], "tys": list(ALL_TYS), "uids": [101]}
 
 
 # ----------------------------------------------------------------------------------------------
@@ -739,6 +744,7 @@ def py_semantics_real(c):
 
 class C02(PropertyCheck):
     pid = "C02"
+    claimed = True
     props_modules = ["KDVerif.Props.C02"]
     extra_build = ["KDVerif.Driver.IndexMaps"]
     driver_main = "mains/IndexMaps.lean"
@@ -764,8 +770,9 @@ class C02(PropertyCheck):
                   "balanced concat: index m*P+j yields sample (m mod size) of part j; introspection (root, all_wrappers, wrappers of type, has_wrapper, "
                   "attribute lookup, dispose) enumerates exactly the layers of every linear chain. Model tied to the real classes each run.")
     level_note = ("trusted: Lean kernel + standard axioms; the correspondence harness; base dataset contract; a balanced concat *below* another layer "
-                  "is outside the sized-stack theorems (its bulk accessor lists parts in a row while per-sample access round-robins: recorded as an "
-                  "out-of-claim observation); arbitrary attribute names are sampled, not proved")
+                  "is outside the bulk theorems (named _partial): its bulk accessor lists parts in a row while per-sample access round-robins - known "
+                  "finding indexmaps:getall-over-balanced-concat, negation proved on a witness (bulk_ne_per_sample_over_balanced_concat), judged by "
+                  "the oracle and replayed every run; arbitrary attribute names are sampled, not proved")
     design_ref = "DESIGN.md 3 (C02)"
 
     def cases(self):
@@ -831,10 +838,6 @@ class C02(PropertyCheck):
             for f in oracle(case, real):
                 if len(res.failures) < 50 and (sum(g.key == f.key for g in res.failures) < 3):
                     res.failures.append(f)
-            for o in observations(case, real):
-                kind = o.split(":")[0]
-                if not any(x.startswith(kind) for x in res.observations):
-                    res.observations.append(o)
             if len(res.samples) < 3 and real.get("build") == "ok" and depth_of(case["ds"]) >= 3 and isinstance(real.get("getall"), list):
                 res.samples.append({"stack": describe(case["ds"]), "len": real["len"], "getall_x": real["getall"]})
         res.failures.sort(key=lambda f: len(json.dumps(f.input)))
@@ -844,6 +847,16 @@ class C02(PropertyCheck):
         real = run_real(inp)
         fs = oracle(inp, real)
         return fs[0] if fs else None
+
+    def replay_known(self, finding):
+        if finding.get("key") != KNOWN_BALANCED_KEY:
+            return False
+        w = known_witness()
+        real = run_real(w)
+        if real.get("build") != "ok" or not isinstance(real.get("getall"), list):
+            return True
+        per = [it for it in real["items"]]
+        return real["getall"][1] != per
 
     def search(self, budget_s, hints):
         t0 = time.time()
